@@ -294,7 +294,7 @@ static std::string fname(const Function* f) {
         {"_ZdlPvm", "__ir_delete2"}, {"_ZdaPvm", "__ir_delete2"}, {"__cxa_allocate_exception", "__ir_alloc_exception"},
         {"_ZSt17__throw_bad_allocv", "__ir_throw0"}, {"_ZSt20__throw_length_errorPKc", "__ir_throw1"}, {"_ZSt24__throw_out_of_range_fmtPKcz", "__ir_throw1"},
         {"_ZSt19__throw_logic_errorPKc", "__ir_throw1"}, {"_ZSt20__throw_out_of_rangePKc", "__ir_throw1"}, {"_ZSt25__throw_bad_function_callv", "__ir_throw0"},
-        {"_ZSt28__throw_bad_array_new_lengthv", "__ir_throw0"}, {"__cxa_pure_virtual", "__ir_throw0"}, {"_ZSt9terminatev", "__ir_throw0"}};
+        {"_ZSt28__throw_bad_array_new_lengthv", "__ir_throw0"}, {"__cxa_pure_virtual", "__ir_throw0"}, {"_ZSt9terminatev", "__ir_throw0"}, {"__assert_fail", "__ir_assert_fail"}};
     auto b = builtin.find(f->getName().str());
     if (b != builtin.end()) return b->second;
     return sanitize(f->getName().str());
@@ -701,7 +701,7 @@ static void loadData(const std::string& file) {
 
 int main(int argc, char** argv) {
     if (argc < 3) die("usage: ir2c in.ll out.c [--root F] [--alias real=model] [--stub F] [--dyn-list file] [--data file]");
-    std::string dynList, dataFile, rewriteOut;
+    std::string dynList, dataFile, rewriteOut, externalsOut;
     for (int i = 3; i < argc; i++) {
         std::string a = argv[i];
         if (a == "--stub" && i + 1 < argc) stubFuncs.insert(argv[++i]);
@@ -710,6 +710,7 @@ int main(int argc, char** argv) {
         else if (a == "--dyn-list" && i + 1 < argc) dynList = argv[++i];
         else if (a == "--data" && i + 1 < argc) dataFile = argv[++i];
         else if (a == "--rewrite" && i + 1 < argc) rewriteOut = argv[++i];
+        else if (a == "--externals" && i + 1 < argc) externalsOut = argv[++i];
         else die("bad arg " + a);
     }
     LLVMContext ctx; SMDiagnostic err;
@@ -772,13 +773,28 @@ int main(int argc, char** argv) {
             if (ng == usedGlobals.size() && nf == refFuncs.size() && !heapChanged) break;
         }
     }
+    if (!externalsOut.empty()) {
+        // everything the generated C leaves undefined: CBMC treats such functions as side-effect free
+        // with a nondeterministic result and such globals as nondeterministic - the driver must allow each explicitly
+        std::ofstream ex(externalsOut);
+        std::set<std::string> seenF;
+        for (auto* F : reach) { if (stubFuncs.count(F->getName().str())) continue;
+            for (auto& BB : *F) for (auto& I : BB) if (auto* cb = dyn_cast<CallBase>(&I)) {
+                const Function* c = cb->getCalledFunction(); if (!c) { continue; }
+                if (c->isIntrinsic()) continue;
+                auto al = aliases.find(c->getName().str()); if (al != aliases.end()) continue;
+                if ((c->isDeclaration() || stubFuncs.count(c->getName().str())) && seenF.insert(c->getName().str()).second) ex << "F " << c->getName().str() << " " << fname(c) << "\n";
+            } }
+        for (auto* F : refFuncs) if (!reach.count(F) && seenF.insert(F->getName().str()).second) ex << "A " << F->getName().str() << "\n";
+        for (auto* G : usedGlobals) if (G->isDeclaration()) ex << "G " << G->getName().str() << "\n";
+    }
     if (!dynList.empty()) {
         std::ofstream dl(dynList);
         for (auto* G : usedGlobals) if (!G->isConstant() && !G->isDeclaration() && !G->isThreadLocal()) dl << G->getName().str() << " " << DL->getTypeAllocSize(G->getValueType()) << "\n";
     }
     for (auto& F : *M) {
         if (F.isIntrinsic()) continue;
-        static const std::set<std::string> libc = {"_Znwm","_Znam","_ZdlPv","_ZdaPv","_ZdlPvm","_ZdaPvm","__cxa_allocate_exception","_ZSt17__throw_bad_allocv","_ZSt20__throw_length_errorPKc","_ZSt24__throw_out_of_range_fmtPKcz","_ZSt19__throw_logic_errorPKc","_ZSt20__throw_out_of_rangePKc","_ZSt25__throw_bad_function_callv","_ZSt28__throw_bad_array_new_lengthv","__cxa_pure_virtual","_ZSt9terminatev","strcmp","strlen","memcmp","memcpy","memmove","memset","malloc","free","abort","strchr","memchr","calloc","realloc","exit"};
+        static const std::set<std::string> libc = {"_Znwm","_Znam","_ZdlPv","_ZdaPv","_ZdlPvm","_ZdaPvm","__cxa_allocate_exception","_ZSt17__throw_bad_allocv","_ZSt20__throw_length_errorPKc","_ZSt24__throw_out_of_range_fmtPKcz","_ZSt19__throw_logic_errorPKc","_ZSt20__throw_out_of_rangePKc","_ZSt25__throw_bad_function_callv","_ZSt28__throw_bad_array_new_lengthv","__cxa_pure_virtual","_ZSt9terminatev","__assert_fail","strcmp","strlen","memcmp","memcpy","memmove","memset","malloc","free","abort","strchr","memchr","calloc","realloc","exit"};
         if (libc.count(F.getName().str())) continue;
         bool inReach = reach.count(&F);
         if (!inReach && !refFuncs.count(&F)) continue;
